@@ -41,6 +41,9 @@ inductive Line where
   (`UnknownPragma`), a directive name that is none (`UnknownCommand`), `#include` whose operand is not one string literal
   / header name (`InvalidInclude`).  The pending text was flushed when the `#` was met, so an error of that text wins -/
   | rejected (e : Err)
+  /-- the null directive: `#` alone on its line (C11 6.10.7).  The `#` flushes the pending text like every directive; the
+  line end that follows is met in state `CommandStart` and goes to `active_tokens` (arm `(Token::Endline, _)`) -/
+  | null
   deriving DecidableEq, Repr, Inhabited
 
 /-- the include handler: include name ↦ `FileData { real_name, contents }` = (real name, lines of the file) -/
@@ -122,6 +125,10 @@ def stepLine (inc : String → State → Except Err State) (cur : String) :
     match flush st active with
     | .error e' => .error e'
     | .ok _ => .error e
+  | (st, active), .null =>
+    match flush st active with
+    | .error e => .error e
+    | .ok st => .ok (st, [eol])
 
 def foldLines (inc : String → State → Except Err State) (cur : String) :
     State × List PTok → List Line → Except Err (State × List PTok)
